@@ -31,8 +31,50 @@ package regions
 //@   ensures forall x int :: cover(x, i) ==> exists m int :: 0 <= m && m < len(result) && result[m] == x
 //@   ensures forall a int, b int :: 0 <= a && a < b && b < len(result) ==> result[a] < result[b]
 
+// NewIndex (C16) establishes the representation invariant for the interval
+// lists it is given: covers(S, E, N, x, p) is the property's "starts[x] <= p <
+// ends[x]" over the arguments. The sweep is specified in
+// /verif/specs/30regions.spec: evWF/evAll/evSorted describe the sorted event
+// list, active(.., i, x) the set held after i events; lemmas activeStep,
+// sweepCover and sweepBefore carry the argument.
 //@ func NewIndex
 //@   props C16
-//@   thin
+//@   branch-split
 //@   panics len(starts) != len(ends)
+//@   let S := arr(starts)
+//@   let E := arr(ends)
+//@   let N := len(starts)
+//@   let IX := fieldarr(events, idx)
+//@   let PS := fieldarr(events, pos)
+//@   let ST := fieldarr(events, start)
+//@   let L := result.idx
 //@   ensures result != nil
+//@   ensures forall a int, b int :: 0 <= a && a < b && b < len(L) ==> L[a].start < L[b].start
+//@   ensures forall k int :: {L[k].start} {len(L[k].idxs)} 0 <= k && k < len(L) ==> piece(rawarr(L[k].idxs), offset(L[k].idxs), len(L[k].idxs), L[k].start, (k == len(L)-1 ? 0 : L[k+1].start), k == len(L)-1, S, E, N)
+//@   ensures forall p int, x int :: (len(L) == 0 || p < L[0].start) ==> !covers(S, E, N, x, p)
+//@   loop 1
+//@     invariant len(events) <= 2 * i
+//@     invariant evWF(IX, PS, ST, len(events), S, E, i)
+//@     invariant evAll(IX, ST, len(events), S, E, i)
+//@   loop 2
+//@     invariant evWF(IX, PS, ST, len(events), S, E, N) && evAll(IX, ST, len(events), S, E, N) && evSorted(PS, len(events))
+//@     invariant mark(i)
+//@     invariant i > 0 ==> pos == PS[i-1]
+//@     invariant forall x int :: {has(idxs, x)} {active(IX, ST, i, x)} has(idxs, x) <==> active(IX, ST, i, x)
+//@     invariant i == 0 ==> len(intervals) == 0
+//@     invariant len(intervals) > 0 ==> i > 0 && intervals[len(intervals)-1].start < pos
+//@     invariant forall a int, b int :: 0 <= a && a < b && b < len(intervals) ==> intervals[a].start < intervals[b].start
+//@     invariant i > 0 ==> (len(intervals) > 0 ? intervals[0].start : pos) == PS[0]
+//@     invariant forall k int :: {intervals[k].start} 0 <= k && k < len(intervals) ==> piece(rawarr(intervals[k].idxs), offset(intervals[k].idxs), len(intervals[k].idxs), intervals[k].start, (k == len(intervals)-1 ? pos : intervals[k+1].start), false, S, E, N)
+
+// keys (C16): the strictly ascending enumeration of the key set.
+//@ func keys
+//@   props C16
+//@   ensures forall j int :: 0 <= j && j < len(result) ==> has(m, result[j])
+//@   ensures forall k int :: {has(m, k)} has(m, k) ==> exists j int :: 0 <= j && j < len(result) && result[j] == k
+//@   ensures forall a int, b int :: 0 <= a && a < b && b < len(result) ==> result[a] < result[b]
+//@   loop 1
+//@     invariant len(result) == seenN
+//@     invariant forall j int :: 0 <= j && j < len(result) ==> seen(result[j]) && has(m, result[j])
+//@     invariant forall k int :: seen(k) ==> exists j int :: 0 <= j && j < len(result) && result[j] == k
+//@     invariant forall a int, b int :: 0 <= a && a < b && b < len(result) ==> result[a] != result[b]
